@@ -111,7 +111,6 @@ class MidiTrack(object):
         track_data."""
         if hasattr(track, "name"):
             self.set_track_name(track.name)
-        self.delay = 0
         instr = track.instrument
         if hasattr(instr, "instrument_nr"):
             self.change_instrument = True
